@@ -118,7 +118,7 @@ def parse_unit(path):
                           nth=int(kv['nth']) if 'nth' in kv else None,
                           dropped_fields=[x for x in kv.get('dropped_fields', '').split(',') if x],
                           loops={}, directives=[], unit_line=ln, indent=kv.get('indent', ''),
-                          sig_subst=[], optional=bool(kv.get('optional')), no_termination=bool(kv.get('no_termination')))
+                          sig_subst=[], optional=bool(kv.get('optional')), no_termination=bool(kv.get('no_termination')), loop_isolation=kv.get('loop_isolation'))
             sec = ('none', None)
         elif word == 'stmts':
             kv = parse_kv(rest)
